@@ -173,3 +173,41 @@ Proof.
     rewrite E in Elite. inversion Elite; subst lite. now apply Hall. }
   rewrite <- Hlm. now apply wf_media_gen_ok, Hm.
 Qed.
+
+(* ---- contrib/signaling.py ---- *)
+Definition sobj_ok (o : sobj) : Prop :=
+  match o with SDesc _ ty => ty = s_offer \/ ty = s_answer | _ => True end.
+
+Lemma signaling_roundtrip : forall o, sobj_ok o -> obj_of_msg (msg_of_obj o) = Ok o.
+Proof.
+  intros [sdp ty|c mid idx|] H; cbn [sobj_ok] in H.
+  - destruct H as [-> | ->]; reflexivity.
+  - unfold msg_of_obj, obj_of_msg. cbn [g_type g_sdp g_cand g_id g_label g_extra].
+    change (str_eqb s_candidate s_answer || str_eqb s_candidate s_offer) with false. cbn iota.
+    change (str_eqb s_candidate s_candidate) with true. cbn iota.
+    rewrite cand_roundtrip. reflexivity.
+  - reflexivity.
+Qed.
+
+Lemma cand_to_tokens_inj : forall c1 c2, cand_to_tokens c1 = cand_to_tokens c2 -> c1 = c2.
+Proof.
+  intros c1 c2 H. pose proof (cand_roundtrip c1) as H1. rewrite H, cand_roundtrip in H1. now inversion H1.
+Qed.
+
+Lemma msg_of_obj_inj : forall o1 o2, msg_of_obj o1 = msg_of_obj o2 -> o1 = o2.
+Proof.
+  intros [s1 t1|c1 m1 i1|] [s2 t2|c2 m2 i2|] H; cbn [msg_of_obj] in H; try discriminate; try reflexivity.
+  - inversion H; subst; reflexivity.
+  - pose proof (f_equal (fun m => match g_cand m with Some (CToks t) => t | _ => [] end) H) as Ht.
+    pose proof (f_equal g_id H) as Hi. pose proof (f_equal g_label H) as Hl.
+    cbn [g_cand g_id g_label] in Ht, Hi, Hl. apply cand_to_tokens_inj in Ht.
+    inversion Hi; inversion Hl; subst; reflexivity.
+Qed.
+
+(* messages of the three shapes object_to_string writes are read back to the object they came from,
+   and re-serialising gives the same message *)
+Lemma signaling_msg_roundtrip : forall m o, obj_of_msg m = Ok o ->
+  (exists o', sobj_ok o' /\ m = msg_of_obj o') -> msg_of_obj o = m.
+Proof.
+  intros m o H (o' & Hok & ->). rewrite (signaling_roundtrip o' Hok) in H. now inversion H.
+Qed.
